@@ -133,3 +133,12 @@ var _ = pr.AutoF
 //@   loop 1 step[reset-creates] len(counterValues[nv.String]) >= 1 && counterValues[nv.String][len(counterValues[nv.String])-1] == nv.Int
 //@   loop 2 step[set-creates] len(counterValues[nv.String]) >= 1 && counterValues[nv.String][len(counterValues[nv.String])-1] == nv.Int
 //@   loop 3 step[increment-creates] len(counterValues[ci.String]) >= 1
+
+// CSS 2.1 §17.2.1 (anonymous table objects), the "proper table parent" relation: a row group, column
+// group or caption belongs in a table or an inline-table; a row also in a row group; a column also in a
+// column group. (Box building wraps a misparented box: a wrong answer here builds tables inside tables.)
+//@ func (BoxType).IsInProperParents
+//@   props C01 C13
+//@   nopanic
+//@   let inTable = t == TableT || t == InlineTableT
+//@   ensures result == (((type_ == TableRowGroupT || type_ == TableColumnGroupT || type_ == TableCaptionT) && inTable) || (type_ == TableRowT && (inTable || t == TableRowGroupT)) || (type_ == TableColumnT && (inTable || t == TableColumnGroupT)))
